@@ -48,10 +48,15 @@ __all__ = (
 _FIRST_CONST = Constant.first()
 NOARG = object()
 
+# Verification hook (off unless PYTABLEAUX_VERIF=1): see end of module.
+import os as _os
+_VERIF = _os.environ.get('PYTABLEAUX_VERIF') == '1'
+
 class Node(MapCover, abcs.Copyable, metaclass=NodeMeta):
     'A tableau node.'
 
     __slots__ = ('step', 'ticked')
+    if _VERIF: __slots__ += ('_verif_hash',)
 
     def __init__(self, mapping = EMPTY_MAP, /):
         if mapping is self:
@@ -258,6 +263,7 @@ class Branch(SequenceSet[Node], EventEmitter, abcs.Copyable, metaclass=BranchMet
         '_worlds',
         'constants',
         'worlds')
+    if _VERIF: __slots__ += ('_verif_hash',)
 
     INDEX_KEYS = (
         (Node.Key.sentence,),
@@ -636,3 +642,35 @@ class SentenceNode(Node): pass
 class SentenceWorldNode(SentenceNode, WorldNode): pass
 class SentenceDesignationNode(SentenceNode, DesignationNode): pass
 class SentenceDesignationWorldNode(SentenceDesignationNode, SentenceWorldNode): pass
+
+if _VERIF:
+    # Verification hook: seedable, replayable ordering of nodes and branches in
+    # hash-based sets. Each Node/Branch gets a per-process sequence number at its
+    # first hashing, and hashes to a deterministic function of
+    # (PYTABLEAUX_VERIF_ORDER, sequence number) instead of id(self). Equality
+    # stays identity. With the guard off nothing here runs.
+    def _verif_install():
+        from itertools import count
+        order = int(_os.environ.get('PYTABLEAUX_VERIF_ORDER') or 0)
+        seq = count()
+        def __hash__(self):
+            try:
+                return self._verif_hash
+            except AttributeError:
+                n = next(seq)
+                # splitmix-style mixing, so that different orders give
+                # unrelated set layouts
+                x = (n + 1) * 0x9E3779B97F4A7C15 + order * 0xBF58476D1CE4E5B9
+                x &= 0xFFFFFFFFFFFFFFFF
+                x ^= x >> 30
+                x = (x * 0xBF58476D1CE4E5B9) & 0xFFFFFFFFFFFFFFFF
+                x ^= x >> 27
+                x = (x * 0x94D049BB133111EB) & 0xFFFFFFFFFFFFFFFF
+                x ^= x >> 31
+                h = x & 0x3FFFFFFFFFFFFFFF
+                object.__setattr__(self, '_verif_hash', h)
+                return h
+        Node.__hash__ = __hash__
+        Branch.__hash__ = __hash__
+    _verif_install()
+    del _verif_install
